@@ -508,6 +508,25 @@ pub fn levels_programs() -> Vec<Arc<Prog>> {
     ]
 }
 
+/// Two manual compactions whose rounds are real work (one key on levels 2, 1 and 0): one caller's
+/// request is registered and being worked on while the other caller finishes. Too many schedules
+/// for the quick tier; explored at the thorough bound only (the schedule that a withdrawn request
+/// needs has 4 deviations, 2 of them preemptions).
+pub fn c09_manual_compaction_programs() -> Vec<Arc<Prog>> {
+    let setup = vec![Put(0, 1, 8), Flush, Put(0, 2, 8), Flush, Put(0, 3, 8), Flush, Put(1, 4, 8)];
+    vec![
+        prog("compact||compact over three levels", setup.clone(), vec![vec![Compact(None, None)], vec![Compact(None, None)]]),
+        prog("compact||compact||w over three levels", setup, vec![vec![Compact(None, None)], vec![Compact(Some(0), Some(0))], vec![Put(1, 5, 8)]]),
+    ]
+    .into_iter()
+    .map(|p| {
+        let mut q = (*p).clone();
+        q.strict_unlink = false;
+        Arc::new(q)
+    })
+    .collect()
+}
+
 pub fn c09_programs() -> Vec<Arc<Prog>> {
     let m2 = Cfg::new(ROT_MEMTABLE, 300, 16, true);
     let p = |name: &str, setup: Vec<TOp>, threads: Vec<Vec<TOp>>| {
@@ -537,18 +556,6 @@ pub fn c09_programs() -> Vec<Arc<Prog>> {
         p("w3||w3", vec![], vec![vec![Put(0, 1, 8), Put(0, 2, 8), Put(0, 3, 8)], vec![Put(1, 4, 8), Put(1, 5, 8), Put(1, 6, 8)]]),
         p("flush||flush||w", vec![Put(0, 1, 8)], vec![vec![Flush], vec![Flush], vec![Put(1, 2, 8)]]),
         p("compact||compact", vec![Put(0, 1, 8), Flush, Put(1, 2, 8)], vec![vec![Compact(None, None)], vec![Compact(Some(0), Some(1))]]),
-        // two manual compactions whose rounds are real work (one key on levels 2, 1 and 0): one
-        // caller's request is registered and being worked on while the other caller finishes
-        p(
-            "compact||compact over three levels",
-            vec![Put(0, 1, 8), Flush, Put(0, 2, 8), Flush, Put(0, 3, 8), Flush, Put(1, 4, 8)],
-            vec![vec![Compact(None, None)], vec![Compact(None, None)]],
-        ),
-        p(
-            "compact||compact||w over three levels",
-            vec![Put(0, 1, 8), Flush, Put(0, 2, 8), Flush, Put(0, 3, 8), Flush, Put(1, 4, 8)],
-            vec![vec![Compact(None, None)], vec![Compact(Some(0), Some(0))], vec![Put(1, 5, 8)]],
-        ),
         p("reader||w+flush", vec![Put(0, 1, 8)], vec![vec![Get(0), IterScan], vec![Put(0, 2, 8), Flush]]),
         // an automatic (size-triggered) level-0 compaction racing with a manual compact_range:
         // the setup leaves one file in L2, one in L1, three in L0 and a full memtable; the put
